@@ -28,7 +28,7 @@ REQUIRED = {"parse.faithful": {"quick": 1500, "thorough": 100000}, "alias.recogn
             "parse_file.language_header": {"quick": 80, "thorough": 2000}, "fragment.steps": {"quick": 300, "thorough": 15000},
             "fragment.scenario": {"quick": 300, "thorough": 15000}, "fragment.rule": {"quick": 100, "thorough": 5000},
             "fragment.tags": {"quick": 300, "thorough": 15000}}
-REQUIRED_SEEN = {"language": 80, "file_form": ["lf", "crlf", "bom", "bom+crlf", "cr"]}
+REQUIRED_SEEN = {"language": 80, "file_form": ["lf", "crlf", "bom", "bom+crlf", "cr", "big"]}
 EXHAUSTIVE = True
 EXHAUSTIVE_SCOPE = "all 80 languages x every alias of every keyword (one document each); layouts and trees are sampled"
 NSHARDS = {"quick": 16, "thorough": 16}
@@ -220,8 +220,14 @@ def check_doc(mon, lab, lang, kws, rng, layout, monitor="parse.faithful", force_
         if via_file:
             fd, path = tempfile.mkstemp(suffix=".feature", prefix="bvm-")
             # how the very same text may sit in a file: line endings of another platform, a byte-order mark written by an editor
-            file_form = rng.choice(["lf", "lf", "crlf", "bom", "bom+crlf", "cr"])
+            file_form = rng.choice(["lf", "lf", "crlf", "bom", "bom+crlf", "cr", "big"])
             data = text
+            if file_form == "big":
+                # a file far beyond 64 KiB whose multi-byte characters sit at every possible offset (readers that work block-wise)
+                pre = ["#" + "x" * rng.randint(0, 2) + " " + "\u65e5\u672c\u8a9e\u0416" * 6000 for _ in range(rng.randint(3, 4))]
+                data = "\n".join(pre) + "\n" + text
+                lines = {k: v + len(pre) for k, v in lines.items()}
+                case["text"] = "(%d long leading comment lines)\n" % len(pre) + text
             if "crlf" in file_form:
                 data = data.replace("\n", "\r\n")
             elif file_form == "cr":
